@@ -301,6 +301,7 @@ def _run_osc_irf_full(cfg, rec):
                 vals[nm] = sym(nm)
                 return vals[nm]
 
+            ctx.lazy_axioms = True  # every fork of this code is a linear comparison of inputs
             mc, dm = build_osc_irf_full(cfg, val)
             t = _axis(ctx, "t", 2)
             for g in range(ng):
@@ -309,7 +310,7 @@ def _run_osc_irf_full(cfg, rec):
                     ctx.assume(vals[f"sc{g}"].e > 0)
             ctx.assume((vals["g0"].e < 0) if cfg["neg"] else (vals["g0"].e >= 0))
             ctx.assume(vals["f0"].e >= 0)
-            ctx.assume(vals["f0"].e * W * 2 * zreal(0.03) * (t[1].e - t[0].e) < 1)
+            ctx.assume(vals["f0"].e * W * 2 * zreal(0.03) * (t[1].e - t[0].e) < 1)  # below the folding frequency of the axis
             gaxis = np.array([1.0, 2.0]) if cfg["shifted"] else np.array([1.0])
             labels, matrix = mc.calculate_matrix(dm, gaxis, t)
         return labels, matrix, vals, t
